@@ -46,8 +46,17 @@ CLAIMED['C10'] = dict(
          'Base58Check acceptance decided on decoded strings of every length 0..40 with checksum = H(rest)[:4] + symbolic delta, all 4-byte strings exactly (found the 7415e100 defect, now fixed).',
     note='integers in z3 linear integer arithmetic with fresh quotient/remainder/digit variables; engine theory lemma "solver-proved equal numbers have equal digits"; '
          'Base58Check harnesses are compositional over decode/encode; double-SHA256 uninterpreted except exact tables for <= 12 symbolic input bits.')
+CLAIMED['C11'] = dict(
+    text=_T + 'the lifted loop body of bech32_polymod is proved (all 30-bit states, all 5-bit values) equal to the BCH remainder step derived from the BIP173 '
+         'generator polynomial over GF(32) and GF(2)-linear; by that linearity every error pattern on every position set of size 1 and 2 (quick) / 3 and 4 (thorough) '
+         'of 39- and 59-symbol data parts is shown to have a non-zero syndrome (solver query per set over all error values); encode/decode compared with an independent '
+         'BIP173 reference for symbolic programs (all lengths 2..40, versions 0..16), symbolic short strings over all code points, and address-length strings with '
+         'symbolic payload and checksum-delta.',
+    note='whole-run claim from the step lemma uses a stated paper induction (function structure checked on the AST each run); GF(2)-affine normal forms in the engine decide checksum identities syntactically; '
+         'substitutions in the human-readable part/separator and >=5 substitutions are outside the claim.',
+    technique='bounded symbolic execution of the real Python source on z3 proxies; kernel lifting of the polymod loop body + step lemmas; per-position-set SMT queries for error detection')
 _UC = 'check not built yet in this round (engine exists; harness pending) - will be claimed or declared not applicable with its real reason'
-for _i in ['C05','C06','C07','C09','C11','C12','C14','C16','C18','C19']:
+for _i in ['C05','C06','C07','C09','C12','C14','C16','C18','C19']:
     NA[_i] = _UC
 NA['C13'] = ('key derivation, signing, verification and point validity are computed by OpenSSL through ctypes: there is no Python or IR to execute '
              'symbolically, and the reference (secp256k1 group law, 256-bit modular inversion) is non-linear 256-bit arithmetic out of reach of z3/cvc5')
